@@ -230,9 +230,9 @@ HEADER_TYPES = r'''
 #include <stdnoreturn.h>
 #include <stdatomic.h>
 #include <stdio.h>
-#define SA(T) printf(#T " size=%d align=%d\n", (int)sizeof(T), (int)_Alignof(T))
-#define SG(T) printf("signed:" #T " %d\n", (T)-1 < (T)0)
-#define VI(M) printf(#M " %lld\n", (long long)(M))
+#define SA(T) printf(#T " | size=%d align=%d\n", (int)sizeof(T), (int)_Alignof(T))
+#define SG(T) printf("signed:" #T " | %d\n", (T)-1 < (T)0)
+#define VI(M) printf(#M " | %lld\n", (long long)(M))
 struct with_max { char c; max_align_t m; char d; }; struct with_va { char c; va_list v; }; struct with_flag { char c; atomic_flag f; atomic_long l; };
 int main(void) {
   SA(size_t); SA(ptrdiff_t); SA(wchar_t); SA(max_align_t); SA(va_list); SA(bool); SA(atomic_flag); SA(atomic_int); SA(atomic_long); SA(atomic_bool); SA(atomic_char); SA(atomic_short);
